@@ -25,6 +25,15 @@ Deliberately NOT demanded (the property text is silent or forml's behaviour is d
   placeholders, out-of-range port numbers and placeholders with szin != szout are never generated (forml only ever
   creates 1x1 placeholders and addresses them through Apply ports).
 
+Mechanism keys are structural: ``accepted-<invariant>-<route>`` (a forbidden link was made; route = direct / via-future /
+future-self / publish / train), ``crashed-...`` (forbidden call raised something else than TopologyError),
+``partial-<call>`` (composite call kept a prefix), ``failed-call-left-future-residue`` / ``failed-call-partial-collapse``
+(refused call through a placeholder changed placeholder bookkeeping / upstream outputs), ``failed-<call>-changed-<fields>``,
+``state-mismatch-<call>-<fields>``, ``invariant-<names>``, ``cycle-not-rejected-<autotrace|explicit-tail>``,
+``composition-accepted-placeholder-head``, ``finalizer-unregisters-live-subscription``, ``future-wiring-<refused|differs>``,
+``order-dependent-result``, ``registry-aliased-worker-to-future`` (any registry symptom while a Future is a key of
+``Subscription._PORTS`` and equal - Node.__eq__ - to a worker), ``ambient-<invariant>``.
+
 Finalizer schedules: every sequence runs under one of {prompt, gc.disable(), gc.collect() after every call, 'hold' =
 the caller keeps the raised exceptions (tracebacks keep the rejected Subscription alive) and drops them at a later
 point of the sequence}.
@@ -40,7 +49,9 @@ RULE = (
     'illegal calls with retries of refused calls, x4 finalizer schedules; (b) families = fixed 9-call prefix + a set of '
     '3-5 wiring calls run in ALL orders (6+ calls: sampled orders); (c) legal wirings rebuilt through 1-3 chained '
     'placeholders with the elementary connections made in every order (<=5) or sampled orders; distinct = distinct exact '
-    'call sequence; non-trivial = at least one accepted wiring call and (a refused call or a placeholder involved)'
+    'call sequence; non-trivial = at least one accepted wiring call and (a refused call or a placeholder involved); '
+    'thorough additionally runs tests/flow, tests/pipeline/{ensemble,payload,wrap/test_operator}, tests/evaluation, '
+    'tests/testing, tests/io/_input of the repository with the invariant monitor attached to every port call (ambient)'
 )
 ASSUMPTIONS = [
     'the abstract model (vlib/c11_model.py) encodes the invariant list of the property text; placeholders are transparent',
@@ -102,6 +113,7 @@ def floors(tier):
         'schedule_hold': 150 * scale, 'releases_checked': 50 * scale, 'copies_checked': 100 * scale,
         'segments_traced': 1000 * scale, 'compositions_refused_placeholder': 5, 'cycles_rejected': 50 * scale,
         'retries': 300 * scale,
+        **({} if tier == 'quick' else {'ambient_calls_checked': 1000, 'ambient_tests': 200}),
     }
 
 
@@ -206,6 +218,37 @@ def run_futdiff(ctx, spec, order=None, rng=None):
             case.close()
 
 
+AMBIENT = [
+    ['tests/flow', 'tests/pipeline/ensemble', 'tests/evaluation', 'tests/pipeline/payload'],
+    ['tests/pipeline/wrap/test_operator.py', 'tests/testing', 'tests/io/_input'],
+]
+
+
+def run_ambient(ctx, targets):
+    """DESIGN 3.5: the repository's own tests as ambient workload with the invariant monitor attached (pytest plugin)."""
+    import os
+    import subprocess
+    import tempfile
+
+    from vlib import core
+
+    out = os.path.join(tempfile.gettempdir(), f'c11-ambient-{ctx.shard}.json')
+    env = dict(os.environ, C11_AMBIENT_OUT=out, PYTHONPATH=os.pathsep.join([core.REPO, core.VERIF]))
+    cmd = [core.PYTHON, '-m', 'pytest', '-q', '-p', 'no:cacheprovider', '-p', 'vlib.c11_ambient']
+    cmd += [t if os.path.isabs(t) else os.path.join('/repo', t) for t in targets]
+    subprocess.run(cmd, env=env, cwd=tempfile.gettempdir(), capture_output=True, text=True, timeout=1500, check=False)
+    if not os.path.exists(out):
+        raise core.Inconclusive(f'ambient workload produced no report for {targets}')
+    with open(out, encoding='utf-8') as fd:
+        report = json.load(fd)
+    ctx.count('ambient_tests', report['tests'])
+    ctx.count('ambient_calls_checked', report['checks'])
+    ctx.note_max('ambient_max_live_nodes', report['maxnodes'])
+    for item in report['violations']:
+        ctx.violation('ambient-' + item['invariant'], f'{item["invariant"]} broken while running {item["test"]}',
+                      {'mode': 'ambient', 'test': item['test']})
+
+
 def run(ctx):
     import gc
 
@@ -217,9 +260,12 @@ def run(ctx):
     if ctx.shard == 0:
         for schedule, calls in DIRECTED:
             run_sequence(ctx, schedule, calls, sample=True)
-    # ---- (a) random sequences
+    ambient = not ctx.quick and ctx.nshards > len(AMBIENT) and ctx.shard < len(AMBIENT)
+    if ambient:
+        run_ambient(ctx, AMBIENT[ctx.shard])
+    # ---- (a) random sequences (in the thorough tier the shards running the ambient workload skip this part)
     rng = ctx.rng('random', ctx.shard)
-    total = ctx.pick(3200, 200000) // ctx.nshards
+    total = 0 if ambient else ctx.pick(3200, 160000) // (ctx.nshards if ctx.quick else ctx.nshards - len(AMBIENT))
     for k in range(total):
         schedule = ('prompt', 'gc-off', 'prompt', 'gc-each', 'hold')[k % 5]
         case = c11_gen.random_case(rng, schedule, rng.choice([8, 12, 12, 16]), avoid=rng.random() < 0.5)
@@ -259,7 +305,10 @@ def replay(ctx, witness):
     from vlib import c11_driver
 
     c11_driver.install()
-    if witness.get('mode') == 'futdiff':
+    if witness.get('mode') == 'ambient':
+        run_ambient(ctx, [witness['test'].split('::')[0]])
+        ctx.count('evaluations')
+    elif witness.get('mode') == 'futdiff':
         run_futdiff(ctx, witness['spec'], order=witness['order'])
     else:
         run_sequence(ctx, witness['schedule'], witness['calls'])
